@@ -8,10 +8,20 @@ The judge reads the implementation's observations and the extracted instance gra
 * dependencies on pre-start instances count as satisfied: in the graph read off the real
   `TaskProxy` objects every atom pointing before the start point on an instance at or after the start
   point is initially satisfied (the rule `point < start`; also the hypothesis `preStartSatB` of the
-  theorem), and in every observed pool those atoms are satisfied.
+  theorem), and in every observed pool those atoms are satisfied;
+* the start point itself: the scheduler's start point (read off the loaded configuration into the graph)
+  must be the one the command line asks for — `--startcp`, or the earliest cycle among the `--start-task`
+  ids (compared as cycle points, by the harness, from the case options), or the initial point;
+* nothing that must run is lost (checked on `complete` runs that ended with the automatic shutdown):
+  a warm-started run launches every instance at or after the start point (up to the stop point, no
+  suicide trigger) all of whose dependencies are on pre-start instances; a start-task run launches every
+  start task;
+* start tasks: every launch lies in the closure of the start tasks under "graph child of any output"
+  and "next parentless instance" (what the start tasks lead to).
 -/
 import CylcModel.SchedJson
 import CylcModel.SchedAbsStart
+import CylcModel.SchedStart
 open Lean CylcModel.Drv CylcModel.Sched
 
 namespace CylcModel.DrvC46
@@ -54,26 +64,104 @@ def judgeObs (g : Graph) (idx : Nat) (ob : Json) : Option String :=
             else none
           | _ => some s!"obs {idx}: malformed atom"
 
-def judge (g : Graph) (o : Json) : Option String :=
-  let rec go (i : Nat) : List Json → Option String
+
+/-- every job launch of the trace -/
+def launches (o : Json) : List (Int × String) :=
+  (obsList o).flatMap fun ob => ((jArrField? ob "launch").getD []).filterMap tripleOf
+
+def lastStop (o : Json) : Option String :=
+  match (obsList o).getLast? with
+  | some ob => jStrField? ob "stop"
+  | none => none
+
+def upper (g : Graph) : Int := match g.stopPoint with | some sp => min sp g.fcp | none => g.fcp
+
+/-- instances at/after the start point whose (non-empty) dependencies are all on pre-start instances -/
+def preStartOnly (g : Graph) : List (Int × String) :=
+  g.tasks.flatMap fun t => t.insts.filterMap fun pd =>
+    if pd.1 < g.start || pd.1 > upper g || !pd.2.sui.isEmpty || pd.2.pre.isEmpty then none
+    else if pd.2.pre.all fun pr => pr.atoms.all fun e => e.1.pt < g.start then some (pd.1, t.name)
+    else none
+
+/-- what a set of instances leads to: graph children of every output, and the next parentless instance -/
+def leadsTo (g : Graph) (k : Int × String) : List (Int × String) :=
+  match (g.task? k.2).bind (·.inst? k.1) with
+  | none => []
+  | some d =>
+    (d.children.flatMap fun oc => oc.2.map fun c => (c.pt, c.name)) ++
+      (match d.nextParentless with | some np => [(np, k.2)] | none => [])
+
+def closure (g : Graph) (starts : List (Int × String)) : List (Int × String) :=
+  let size := (g.tasks.map fun t => t.insts.length).foldl (· + ·) 1
+  let rec go : Nat → List (Int × String) → List (Int × String)
+    | 0, acc => acc
+    | n + 1, acc =>
+      let next := (acc.flatMap (leadsTo g)).foldl (fun a k => if a.contains k then a else a ++ [k]) acc
+      if next.length == acc.length then acc else go n next
+  go size (starts.foldl (fun a k => if a.contains k then a else a ++ [k]) [])
+
+def parseStarts (i : Json) : Option (List (Int × String)) :=
+  (jArrField? i "start_tasks").map fun l => l.filterMap tripleOf
+
+def judge (g : Graph) (i o : Json) : Option String :=
+  let rec go (k : Nat) : List Json → Option String
     | [] => none
-    | ob :: rest => match judgeObs g i ob with
+    | ob :: rest => match judgeObs g k ob with
       | some w => some w
-      | none => go (i + 1) rest
-  go 0 (obsList o)
+      | none => go (k + 1) rest
+  match go 0 (obsList o) with
+  | some w => some w
+  | none =>
+    let ran := launches o
+    -- a `complete` run (every job does what its task requires) that ended with the automatic shutdown, or
+    -- stalled: nothing more will happen
+    let finished := jStrField? i "kind" == some "complete" &&
+      (lastStop o == some "AUTOMATIC" || ((obsList o).getLast?.bind fun ob => jBoolField? ob "stalled") == some true)
+    -- recorded defect: a sequential task with graph parents is never "parentless", so its first instance
+    -- at/after the start point is never spawned when all its parents are before the start point
+    let isSeq (n : String) : Bool :=
+      (((jField? i "graph").bind fun gj => jField? gj "tasks").bind fun tj => (jField? tj n).bind fun t =>
+        jBoolField? t "sequential") == some true
+    match parseStarts i with
+    | none =>
+      -- start from a cycle point
+      if !finished || g.start ≤ g.icp then none else
+      match (preStartOnly g).find? fun k => !ran.contains k with
+      | some k =>
+        let key := if isSeq k.2 then "sequential-first-instance-never-spawned: " else ""
+        some s!"{key}never-ran: {k.1}/{k.2} depends on pre-start instances only (start point {g.start}) but the workflow shut down without running it"
+      | none => none
+    | some starts =>
+      let cl := closure g starts
+      match ran.find? fun k => !cl.contains k with
+      | some k => some s!"job launched for {k.1}/{k.2}, which no start task leads to"
+      | none =>
+        if !finished then none else
+        match starts.find? fun k => k.1 ≤ upper g && ((g.task? k.2).bind (·.inst? k.1)).isSome && !ran.contains k with
+        | some k => some s!"never-ran: start task {k.1}/{k.2} was never run"
+        | none => none
 
 def handle (i o : Json) : Except String Reply := do
   if let some r := crashReply? i then return r
   let c ← parseCase i
+  let g := c.graph
+  let model : Json := match parseStarts i with
+    | some starts => jOfList (obsJson g) (runTasks g starts c.ops)
+    | none => modelObs c
+  -- the start point the command line asks for (computed by the harness from the case options)
+  let want : Int := (jIntField? i "expect_start").getD g.icp
+  if g.start != want then
+    return { model, holds := false,
+             why := s!"start-point: the scheduler starts from {g.start}, the command line asks for {want}" }
   -- the rule of the property on the real graph = the hypothesis `preStartSatB` of `prestart_satisfied`
-  match graphOffender c.graph with
-  | some w => return { model := modelObs c, holds := false, why := s!"graph: {w}" }
+  match graphOffender g with
+  | some w => return { model, holds := false, why := s!"graph: {w}" }
   | none =>
-  if !preStartSatB c.graph then
-    return { model := modelObs c, holds := false, why := "graph: preStartSatB fails" }
-  match judge c.graph o with
-  | some w => return { model := modelObs c, holds := false, why := w }
-  | none => return { model := modelObs c, holds := true }
+  if !preStartSatB g then
+    return { model, holds := false, why := "graph: preStartSatB fails" }
+  match judge g i o with
+  | some w => return { model, holds := false, why := w }
+  | none => return { model, holds := true }
 
 end CylcModel.DrvC46
 
